@@ -121,12 +121,23 @@ func c12Allowed(hist string) []string {
 
 // c12Child runs the history and kills itself at effect point dieAt (0 = count only).
 func c12Child(hist, dir string, dieAt int) int {
+	return c12ChildMode(hist, dir, dieAt, false)
+}
+
+// c12ChildMode with samePid: at the crash point the process image is replaced by the restarting validator (execve: no
+// deferred function runs, every descriptor is closed, all locks are gone - what is left of the process is its id).
+// This is how a server restarts which is the init process of its container: the new process has the id of the dead one.
+func c12ChildMode(hist, dir string, dieAt int, samePid bool) int {
 	c := newC12Cast()
 	count := 0
 	seqWorld(func() {
 		vsched.EffectHook = func(kind, arg string) error {
 			count++
 			if dieAt > 0 && count == dieAt {
+				if samePid {
+					err := syscall.Exec(os.Args[0], []string{os.Args[0], "C12", "--tier", "worker", "--", "restart", dir, "0"}, os.Environ())
+					fmt.Println("EXEC-FAILED", err)
+				}
 				syscall.Kill(os.Getpid(), syscall.SIGKILL)
 				select {}
 			}
@@ -328,6 +339,10 @@ func RunC12(tier string, args []string) int {
 		k, _ := strconv.Atoi(args[3])
 		return c12Child(args[1], args[2], k)
 	}
+	if len(args) > 0 && args[0] == "child-samepid" {
+		k, _ := strconv.Atoi(args[3])
+		return c12ChildMode(args[1], args[2], k, true)
+	}
 	if len(args) > 0 && args[0] == "restart" {
 		dieAt := 0
 		if len(args) > 2 {
@@ -442,6 +457,22 @@ func RunC12(tier string, args []string) int {
 				return
 			}
 			idsImage, _, _ := ListDir(dir)
+			// the same crash point once more, the restart taking place under the process id of the crashed run
+			if j.hist != "first-load-accepted-1100-entries" || j.k%16 == 0 {
+				pidDir := dir + ".samepid"
+				os.RemoveAll(pidDir)
+				os.MkdirAll(pidDir, 0755)
+				out, err := c12Exec("child-samepid", j.hist, pidDir, fmt.Sprint(j.k))
+				os.RemoveAll(pidDir)
+				os.RemoveAll(pidDir + ".systmp")
+				jp := job{j.hist, j.k, -2}
+				if rp, ok := parse(out); err == nil && ok {
+					add(result{job: jp, r: rp})
+				} else {
+					add(result{job: jp, err: fmt.Sprintf("restart under the process id of the crashed run failed: %v %s", err, out)})
+					return
+				}
+			}
 			// the same image restarted while the other validator instance of the process is busy updating
 			if j.hist != "first-load-accepted-1100-entries" || j.k%16 == 0 {
 				busyDir := dir + ".busy"
@@ -535,12 +566,15 @@ func RunC12(tier string, args []string) int {
 		}
 		return x.j < y.j
 	})
-	double, busyRuns := 0, 0
+	double, busyRuns, samePidRuns := 0, 0, 0
 	for _, res := range results {
 		j := res.job
 		rep := map[string]interface{}{"driver": "C12", "history": j.hist, "crash_point": j.k, "restart_crash_point": j.j}
 		hname := j.hist
-		if j.j < 0 {
+		if j.j == -2 {
+			samePidRuns++
+			j.hist += "+restart-under-the-process-id-of-the-crashed-run"
+		} else if j.j < 0 {
 			busyRuns++
 			j.hist += "+restart-while-other-instance-updates"
 		}
@@ -643,7 +677,8 @@ func RunC12(tier string, args []string) int {
 	sort.Strings(ps)
 	cov := fw.Coverage{
 		"evaluations":                            len(results),
-		"single_crash_evaluations":               len(results) - double - busyRuns,
+		"single_crash_evaluations":               len(results) - double - busyRuns - samePidRuns,
+		"restart_under_the_crashed_process_id":   samePidRuns,
 		"restart_while_other_instance_updates":   busyRuns,
 		"double_crash_evaluations":               double,
 		"restarts_after_completed_histories":     completedN,
